@@ -181,6 +181,12 @@ class C09(core.Check):
             c.append({'f': f, 's': A, 't': [88, 89], 'tm': 'prog'})
             c.append({'f': f, 's': A, 't': [88, 89], 'tm': 'field'})
             c.append({'f': f, 's': A, 't': A, 'tm': 'self'})
+        # concatenation when string space is short: String too long (length only) takes precedence over Out of
+        # string space; free space is compared before and after a collection (seeded change C09f)
+        for la, lb, slack, garb in ((200, 100, 10, 0), (200, 100, 10, 1), (255, 1, 40, 0), (128, 128, 100, 1),
+                                    (100, 100, 20, 0), (100, 100, 20, 1), (100, 100, 120, 1), (30, 30, 100, 0),
+                                    (120, 135, 60, 0), (120, 135, 60, 1), (60, 20, 30, 0), (60, 20, 30, 1)):
+            c.append({'f': 'CONCAT', 's': full[:la], 't': full[:lb], 'mem': {'slack': slack, 'garb': garb}})
         # operands that are temporaries while a LATER argument triggers a string-space garbage collection
         # (seeded change C09e: MID$ un-rooted its operand before the count was evaluated)
         W = A + [88, 89, 90]
@@ -337,6 +343,23 @@ class C09(core.Check):
                 if f_ == 'MIDSET':
                     c.update({'a': [rng.randrange(1, len(s_) + 1), 0, ''], 'b': None, 'same': 0})
                 add(c)
+                continue
+            if rng.random() < 0.02:
+                # concatenation with little free string space, away (>= 20 bytes) from the exact fit
+                garb = rng.randrange(2)
+                slack = rng.choice([5, 10, 30, 60, 100, 140])
+                r = rng.random()
+                if r < 0.4:
+                    tot = rng.choice([256, 257, 300, 400, 510])
+                elif r < 0.75:
+                    tot = rng.randrange(slack + 20, 256) if not garb else rng.randrange(20, min(255, slack + 150) + 1)
+                    if garb and abs(tot - slack) < 20:
+                        tot = slack + 20
+                else:
+                    tot = rng.randrange(0, max(1, slack - 20))
+                la = rng.randrange(max(0, tot - 255), min(255, tot) + 1)
+                add({'f': 'CONCAT', 's': self._bytes(n=la), 't': self._bytes(n=tot - la),
+                     'mem': {'slack': slack, 'garb': garb}})
                 continue
             if rng.random() < 0.09:
                 # functions and operators whose string operands are temporaries, with a garbage collection while a
@@ -576,6 +599,8 @@ class C09(core.Check):
             return self._impl_comp(case)
         if case.get('gc'):
             return self._impl_gc(case)
+        if case.get('mem'):
+            return self._impl_mem(case)
         with common.new_session() as s:
             sm = case.get('sm', 'var')
             S = self._operand(s, 'A$', case['s'], sm) if 's' in case else None
@@ -632,6 +657,43 @@ class C09(core.Check):
             # operands are not modified by a function call
             if sm == 'var' and 's' in case and list(s.get_variable('A$')) != case['s']:
                 raise Refused('operand changed')
+            return [0] + list(s.get_variable('R$'))
+
+    def _mem_setup(self, s, case):
+        mem = case['mem']
+        if self._run(s, 'CLEAR ,9000:DIM F$(120):I=0:K=0') is not None:
+            raise Refused('setup failed')
+        s.set_variable('A$', bytes(case['s']))
+        s.set_variable('B$', bytes(case['t']))
+        s.set_variable('R$', b'?')
+        s.set_variable('P%', 0)     # (used by the twin session that reads the free space; same layout in both)
+        s.set_variable('Q%', 0)
+        for l in ('K=FRE("")', 'G$=STRING$(200,"g")', 'G$=""' if mem['garb'] else 'G$="":K=FRE("")',
+                  'WHILE FRE(0)>250:F$(I)=STRING$(100,"x"):I=I+1:WEND',
+                  'K=FRE(0)-%d:F$(I)=STRING$(K,"y")' % mem['slack']):
+            if self._run(s, l) is not None:
+                raise Refused('memory setup failed at %s' % l)
+
+    def _mem_free(self, case):
+        """(free string space before, after a garbage collection) in the state in which the statement runs:
+        read with FRE(0) / FRE("") in a second session that went through the same deterministic setup."""
+        cache = self.__dict__.setdefault('_memfree', {})
+        key = core.sha(case)
+        if key not in cache:
+            with common.new_session() as s:
+                self._mem_setup(s, case)
+                if self._run(s, 'P%=FRE(0):Q%=FRE("")') is not None:
+                    raise Refused('reading the free space failed')
+                cache[key] = (s.get_variable('P%'), s.get_variable('Q%'))
+        return cache[key]
+
+    def _impl_mem(self, case):
+        """A$+B$ with about `slack` bytes of free string space and optionally reclaimable garbage."""
+        with common.new_session() as s:
+            self._mem_setup(s, case)
+            err = self._run(s, 'R$=A$+B$')
+            if err is not None:
+                return [1, err]
             return [0] + list(s.get_variable('R$'))
 
     def _impl_gc(self, case):
@@ -891,6 +953,9 @@ class C09(core.Check):
             return 'enc_resZ (len_ %s)' % S
         if f == 'ASC':
             return 'enc_resZ (asc_ %s)' % S
+        if f == 'CONCAT' and case.get('mem'):
+            f0, f1 = self._mem_free(case)
+            return 'enc_res (concat_mem %d %d %s %s)' % (f0, f1, S, T)
         if f == 'CONCAT':
             return 'enc_res (concat %s %s)' % (S, T)
         if f == 'CMP':
@@ -1013,6 +1078,15 @@ class C09(core.Check):
             return [0, len(s)]
         if f == 'ASC':
             return [0, s[0]] if s else [1, IFC]
+        if f == 'CONCAT' and case.get('mem'):
+            # the limit of 255 bytes is a property of the result alone; memory is looked at only afterwards,
+            # before and after collecting garbage
+            free, free_collected = self._mem_free(case)
+            if len(s) + len(t) > 255:
+                return [1, STL]
+            if max(free, free_collected) <= len(s) + len(t):
+                return [1, 14]
+            return [0] + list(s + t)
         if f == 'CONCAT':
             return [0] + list(s + t) if len(s) + len(t) <= 255 else [1, STL]
         if f == 'CMP':
